@@ -300,6 +300,16 @@ func runC04(tier string) int {
 		r.Add("programs", 1)
 		checkClosure(r, fp)
 	})
+	mixed := mixedNestingPrograms(tier)
+	if !r.Parallel(uint64(len(mixed)), func(w int, i uint64) {
+		scripts := []*model.Script{mixed[i].Script}
+		fp := &fileProgram{Desc: mixed[i].Desc, Src: model.Print(scripts), Owners: []string{"S"}, UserLabels: model.UserLabels(scripts), External: ext, Scripts: scripts}
+		r.Add("programs", 1)
+		r.Add("mixed_nesting_programs", 1)
+		checkClosure(r, fp)
+	}) {
+		r.NotExhaustive("mixed nesting programs not completed")
+	}
 	for _, fp := range fileLevelPrograms(tier) {
 		r.Add("programs", 1)
 		r.Add("file_level_programs", 1)
